@@ -1,5 +1,714 @@
-//! C09 — stub (being built).
+//! C09 — strict validation rejects exactly the documents the GraphQL
+//! specification calls invalid.
+//!
+//! Monitor. Every request runs through the real schema (static S1 or a
+//! generated dynamic schema, default `ValidationMode::Strict`) that carries one
+//! pass-through extension recording whether the `validation` hook returned Ok
+//! and whether the `execute` hook was reached; every harness resolver logs a
+//! Start event into the request's event log. A request counts as *accepted*
+//! when `execute` was reached, a resolver started or a subscription stream was
+//! opened; otherwise as *rejected*.
+//!
+//! (a) a document that is valid by construction (G2), and a validity-preserving
+//!     variant of it (`valid_variants` in `c09/ops.rs`: the same response key for
+//!     different fields under two different object types, a single value for a
+//!     list, a twin operation, an undeclared request variable) must be accepted;
+//! (b) a G4 mutant (one rule-targeted invalidating edit, see `c09/ops.rs`)
+//!     must be rejected;
+//! (c) every rejection carries at least one error with a source location;
+//! (d) an accepted valid document reports no error that lacks a resolver
+//!     cause (no Start event at its path and none predicted by R1); a third of
+//!     the valid documents runs with one failing resolver so that errors WITH a
+//!     resolver cause are seen as well.
+//!
+//! Defects of the unchanged tree are listed per operator (feature `op_<name>`)
+//! with pinned witnesses (`WITNESSES`), see notes/findings-C09.json.
+
+mod ops;
+
+use std::cell::Cell;
+use std::collections::BTreeMap;
+use std::sync::Arc;
+use std::sync::atomic::{AtomicU64, Ordering};
+
+use async_graphql::extensions::*;
+use async_graphql::{Request, Response, ServerError, ValidationResult, Variables};
+use futures_util::StreamExt;
+use serde_json::{Value as J, json};
+use vh_core::{Rng, Run, catch, rng};
+use vh_model::doc::{OpKind, print};
+use vh_model::gen_doc::{GenDoc, gen_doc};
+use vh_model::gen_ts::{TsOpts, gen_type_system};
+use vh_model::world::Fault;
+use vh_model::TypeSystem;
+use vh_schema::compare::observe;
+use vh_schema::{Ek, Env, dynb, s1};
+
+use crate::common::*;
+use ops::{Cx, OpDef, collect, operators, valid_variants};
+
+// ------------------------------------------------------------------ probe extension
+
+thread_local! {
+    /// (validation hook result: 0 not reached, 1 Ok, 2 Err; execute hook reached)
+    static PROBE: Cell<(u8, bool)> = const { Cell::new((0, false)) };
+}
+
+struct Probe;
+struct ProbeExt;
+
+impl ExtensionFactory for Probe {
+    fn create(&self) -> Arc<dyn Extension> {
+        Arc::new(ProbeExt)
+    }
+}
+
+#[async_graphql::async_trait::async_trait]
+impl Extension for ProbeExt {
+    async fn validation(&self, ctx: &ExtensionContext<'_>, next: NextValidation<'_>) -> Result<ValidationResult, Vec<ServerError>> {
+        let r = next.run(ctx).await;
+        PROBE.with(|p| p.set((if r.is_ok() { 1 } else { 2 }, p.get().1)));
+        r
+    }
+    async fn execute(&self, ctx: &ExtensionContext<'_>, operation_name: Option<&str>, next: NextExecute<'_>) -> Response {
+        PROBE.with(|p| p.set((p.get().0, true)));
+        next.run(ctx, operation_name).await
+    }
+}
+
+fn static_schema() -> AnySchema {
+    AnySchema::S1(s1::builder().extension(Probe).finish())
+}
+
+fn dynamic_schema(ts: &TypeSystem) -> Result<AnySchema, String> {
+    match catch(|| dynb::builder(ts).extension(Probe).finish()) {
+        Ok(Ok(s)) => Ok(AnySchema::Dyn(s)),
+        Ok(Err(e)) => Err(e.to_string()),
+        Err(p) => Err(format!("panic: {p}")),
+    }
+}
+
+// ------------------------------------------------------------------ one execution
+
+#[derive(Clone, Debug)]
+struct Obs {
+    /// 0 validation hook not reached (parse error or earlier), 1 Ok, 2 Err
+    validation: u8,
+    executed: bool,
+    starts: Vec<String>,
+    streams: usize,
+    /// (message, has a location, path)
+    errors: Vec<(String, bool, Option<String>)>,
+    subscription: bool,
+    raw: J,
+}
+
+impl Obs {
+    /// A subscription request never reaches the execute hook; it counts as accepted when a stream was
+    /// opened, or when validation passed and nothing at all was reported (its root field was skipped).
+    fn accepted(&self) -> bool {
+        self.executed || !self.starts.is_empty() || self.streams > 0 || (self.subscription && self.validation == 1 && self.errors.is_empty())
+    }
+    fn brief(&self) -> String {
+        format!(
+            "validation hook {}; execute hook {}; resolvers started {:?}; streams opened {}; {} error(s){}",
+            ["not reached", "Ok", "Err"][self.validation as usize],
+            if self.executed { "reached" } else { "not reached" },
+            self.starts.iter().take(6).collect::<Vec<_>>(),
+            self.streams,
+            self.errors.len(),
+            self.errors.first().map(|e| format!(" (first: {:?}, located: {})", e.0, e.1)).unwrap_or_default()
+        )
+    }
+}
+
+struct Exec<'a> {
+    schema: &'a AnySchema,
+    ts: &'a Arc<TypeSystem>,
+    world_seed: u64,
+    /// resolver faults (response path -> the resolver returns an error), used on valid documents only
+    faults: Vec<(String, Fault)>,
+}
+
+fn request(text: &str, vars: &J, op_name: Option<&str>, env: &Env) -> Request {
+    let mut req = Request::new(text.to_string()).variables(Variables::from_json(vars.clone())).data(env.clone());
+    if let Some(n) = op_name {
+        req = req.operation_name(n.to_string());
+    }
+    req
+}
+
+fn execute(x: &Exec<'_>, text: &str, vars: &J, op_name: Option<&str>, subscription: bool) -> Result<Obs, String> {
+    let env = Env::new(x.ts.clone(), world_for(x.schema.flavour(), x.world_seed).with_faults(&x.faults));
+    PROBE.with(|p| p.set((0, false)));
+    let req = request(text, vars, op_name, &env);
+    let responses: Vec<Response> = catch(|| match (subscription, x.schema) {
+        (true, AnySchema::S1(s)) => vh_core::vsched::block_on(s.execute_stream(req).take(32).collect::<Vec<_>>()),
+        (true, AnySchema::Dyn(s)) => vh_core::vsched::block_on(s.execute_stream(req).take(32).collect::<Vec<_>>()),
+        (false, s) => vec![s.execute(req)],
+    })?;
+    EXECUTED.fetch_add(1, Ordering::Relaxed);
+    let (validation, executed) = PROBE.with(|p| p.get());
+    let events = env.log.snapshot();
+    let mut errors = vec![];
+    let mut raws = vec![];
+    for r in &responses {
+        let o = observe(r);
+        for e in &o.errors {
+            errors.push((e.message.clone(), !e.locations.is_empty(), e.path.as_ref().map(|p| vh_model::exec::path_str(p))));
+        }
+        raws.push(o.raw);
+    }
+    Ok(Obs {
+        validation,
+        executed,
+        starts: events.iter().filter(|e| e.kind == Ek::Start).map(|e| e.path.clone()).collect(),
+        streams: events.iter().filter(|e| e.kind == Ek::Stream).count(),
+        errors,
+        subscription,
+        raw: if raws.len() == 1 { raws.pop().unwrap() } else { J::Array(raws) },
+    })
+}
+
+// ------------------------------------------------------------------ cases
+
+struct Base {
+    flavour: &'static str,
+    ts_seed: u64,
+    ts: Arc<TypeSystem>,
+    gd: GenDoc,
+    world_seed: u64,
+    pretty: bool,
+    /// Some(n): the valid document is executed with one failing resolver (the n-th call of R1, modulo)
+    fault_pick: Option<u64>,
+}
+
+impl Base {
+    fn subscription(&self) -> bool {
+        main_op(&self.gd).map(|i| self.gd.doc.ops[i].kind == OpKind::Subscription).unwrap_or(false)
+    }
+    fn replay(&self, kind: &str, gd: &GenDoc, text: &str) -> J {
+        json!({
+            "kind": kind,
+            "flavour": self.flavour,
+            "ts_seed": self.ts_seed,
+            "schema_sdl": self.ts.sdl(),
+            "document": text,
+            "operation_name": gd.op_name,
+            "variables": gd.vars,
+            "world_seed": self.world_seed,
+            "subscription": self.subscription(),
+        })
+    }
+}
+
+/// Index of the operation the request selects.
+fn main_op(gd: &GenDoc) -> Option<usize> {
+    match &gd.op_name {
+        Some(n) => gd.doc.ops.iter().position(|o| o.name.as_deref() == Some(n.as_str())),
+        None if gd.doc.ops.len() == 1 => Some(0),
+        None => None,
+    }
+}
+
+/// requests executed so far / requests executed when the first problem was seen (0 = none yet)
+static EXECUTED: AtomicU64 = AtomicU64::new(0);
+static FIRST_PROBLEM_AT: AtomicU64 = AtomicU64::new(0);
+static WATCHDOG: std::sync::atomic::AtomicBool = std::sync::atomic::AtomicBool::new(false);
+
+fn problem_seen() {
+    let _ = FIRST_PROBLEM_AT.compare_exchange(0, EXECUTED.load(Ordering::Relaxed).max(1), Ordering::Relaxed, Ordering::Relaxed);
+}
+
+struct Stats {
+    tried: Vec<AtomicU64>,
+    applied: Vec<AtomicU64>,
+    rejected: Vec<AtomicU64>,
+}
+
+fn check_valid(run: &Run, x: &Exec<'_>, b: &Base) -> bool {
+    let printed = print(&b.gd.doc, b.pretty);
+    let sub = b.subscription();
+    // a third of the valid documents runs with one failing resolver, so that the "(d)" monitor also sees
+    // errors that DO have a resolver cause
+    let mut faults: Vec<(String, Fault)> = vec![];
+    if let (Some(pick), false) = (b.fault_pick, sub) {
+        let r0 = Case::new(b.ts.clone(), b.gd.clone(), world_for(b.flavour, b.world_seed), b.pretty).reference();
+        if r0.request_error.is_none() && !r0.calls.is_empty() {
+            faults.push((r0.calls[(pick % r0.calls.len() as u64) as usize].path.clone(), Fault::Err));
+            run.count("valid_documents_with_a_failing_resolver", 1);
+        }
+    }
+    let xf = Exec { schema: x.schema, ts: x.ts, world_seed: x.world_seed, faults: faults.clone() };
+    let x = &xf;
+    let obs = match execute(x, &printed.text, &b.gd.vars, b.gd.op_name.as_deref(), sub) {
+        Ok(o) => o,
+        Err(p) => {
+            run.violation(
+                &format!("C09-panic:{:x}", rng::hash_str(&printed.text)),
+                &format!("[{}] executing a valid document panicked: {p} | doc: {}", b.flavour, printed.text),
+                b.replay("valid", &b.gd, &printed.text),
+            );
+            return false;
+        }
+    };
+    run.eval();
+    run.count("valid_documents", 1);
+    if !obs.accepted() {
+        problem_seen();
+        let mut rj = b.replay("valid", &b.gd, &printed.text);
+        rj["observed"] = obs.raw.clone();
+        rj["faults"] = json!(faults.iter().map(|f| f.0.clone()).collect::<Vec<_>>());
+        rj["features"] = json!(b.gd.features);
+        run.violation(
+            &format!("C09-valid-rejected:{:x}", rng::mix(&[rng::hash_str(&printed.text), rng::hash_str(&b.gd.vars.to_string())])),
+            &format!(
+                "[{}] (a) a document that is valid by construction was rejected: {} | doc: {} | vars: {}",
+                b.flavour,
+                obs.brief(),
+                printed.text,
+                b.gd.vars
+            ),
+            rj,
+        );
+        return false;
+    }
+    run.count("valid_accepted", 1);
+    if obs.validation == 1 {
+        run.count("validation_hook_ok", 1);
+    }
+    // (d): errors of an accepted valid document need a resolver cause
+    if !sub {
+        let case = Case::new(b.ts.clone(), b.gd.clone(), world_for(b.flavour, b.world_seed).with_faults(&faults), b.pretty);
+        let reference = case.reference();
+        if reference.request_error.is_some() {
+            run.count("valid_documents_whose_reference_reports_a_request_error", 1);
+            return true;
+        }
+        let predicted: Vec<String> = reference.errors.iter().map(|e| vh_model::exec::path_str(&e.path)).collect();
+        let mut uncaused = vec![];
+        for (msg, _, path) in &obs.errors {
+            run.count("errors_on_accepted_valid_documents", 1);
+            let caused = match path {
+                None => false,
+                Some(p) => {
+                    let mut segs: Vec<&str> = p.split('.').collect();
+                    while segs.last().map(|s| s.chars().all(|c| c.is_ascii_digit())).unwrap_or(false) {
+                        segs.pop();
+                    }
+                    let fp = segs.join(".");
+                    predicted.iter().any(|q| q == p || q == &fp) || obs.starts.iter().any(|s| s == p || s == &fp)
+                }
+            };
+            if caused {
+                run.count("errors_with_resolver_cause", 1);
+            } else {
+                uncaused.push(format!("{:?} at {:?}", msg, path));
+            }
+        }
+        if !uncaused.is_empty() {
+            problem_seen();
+            let mut rj = b.replay("valid", &b.gd, &printed.text);
+            rj["observed"] = obs.raw.clone();
+            rj["faults"] = json!(faults.iter().map(|f| f.0.clone()).collect::<Vec<_>>());
+            run.violation(
+                &format!("C09-late-failure:{:x}", rng::mix(&[rng::hash_str(&printed.text), rng::hash_str(&b.gd.vars.to_string())])),
+                &format!(
+                    "[{}] (d) a document accepted by validation failed later without a resolver cause: {} | doc: {} | vars: {}",
+                    b.flavour,
+                    uncaused.join("; "),
+                    printed.text,
+                    b.gd.vars
+                ),
+                rj,
+            );
+        }
+    }
+    true
+}
+
+/// Judge one rejected-or-accepted observation of an invalid request. Returns the problem, if any.
+fn judge_invalid(obs: &Obs) -> Option<(&'static str, String)> {
+    if obs.accepted() {
+        return Some(("accepted", format!("(b) the invalid request was executed: {}", obs.brief())));
+    }
+    if obs.errors.is_empty() {
+        return Some(("silent", format!("the request was not executed but no error was reported: {}", obs.brief())));
+    }
+    if !obs.errors.iter().any(|e| e.1) {
+        return Some(("noloc", format!("(c) the rejection carries no error with a source location: {}", obs.brief())));
+    }
+    None
+}
+
+fn check_mutant(run: &Run, x: &Exec<'_>, b: &Base, op: &OpDef, k: usize, m: &ops::Mutant, stats: &Stats, sample: bool) {
+    let printed = print(&m.gd.doc, b.pretty);
+    let sub = b.subscription();
+    let h = rng::mix(&[rng::hash_str(op.name), rng::hash_str(&printed.text), rng::hash_str(&m.gd.vars.to_string())]);
+    let obs = match execute(x, &printed.text, &m.gd.vars, m.gd.op_name.as_deref(), sub) {
+        Ok(o) => o,
+        Err(p) => {
+            run.violation(
+                &format!("C09-panic:{h:x}"),
+                &format!("[{}] executing a mutant of operator {} panicked: {p} | doc: {}", b.flavour, op.name, printed.text),
+                b.replay("mutant", &m.gd, &printed.text),
+            );
+            return;
+        }
+    };
+    run.eval();
+    run.nontrivial(h);
+    run.count("mutants", 1);
+    run.count(&format!("op_{}_applied", op.name), 1);
+    stats.applied[k].fetch_add(1, Ordering::Relaxed);
+    run.seen("rules_targeted", op.rule);
+    run.seen(&format!("operators_applied_{}", b.flavour), op.name);
+    if sample {
+        run.sample(json!({
+            "operator": op.name, "rule": op.rule, "edit": m.note, "flavour": b.flavour,
+            "base_document": print(&b.gd.doc, false).text, "mutant_document": printed.text, "variables": m.gd.vars,
+            "observed": obs.brief(),
+        }));
+    }
+    let problem = judge_invalid(&obs);
+    if !obs.accepted() {
+        run.count("mutants_rejected", 1);
+        run.count(&format!("op_{}_rejected", op.name), 1);
+        stats.rejected[k].fetch_add(1, Ordering::Relaxed);
+        run.count(
+            match obs.validation {
+                0 => "rejected_before_validation_hook",
+                2 => "rejected_by_validation_hook",
+                _ => "rejected_after_validation_hook",
+            },
+            1,
+        );
+        if problem.is_none() {
+            run.count("rejections_with_location", 1);
+        }
+    }
+    if let Some((tag, what)) = problem {
+        problem_seen();
+        let mut rj = b.replay("mutant", &m.gd, &printed.text);
+        rj["operator"] = json!(op.name);
+        rj["rule"] = json!(op.rule);
+        rj["edit"] = json!(m.note);
+        rj["base_document"] = json!(print(&b.gd.doc, false).text);
+        rj["base_variables"] = b.gd.vars.clone();
+        rj["observed"] = obs.raw.clone();
+        rj["expected"] = json!("rejected before execution, at least one error with a location");
+        run.violation(
+            &format!("C09-{tag}:{}:{h:x}", op.name),
+            &format!(
+                "[{}] operator {} breaks {} ({}); {} | doc: {} | vars: {}",
+                b.flavour, op.name, op.rule, m.note, what, printed.text, m.gd.vars
+            ),
+            rj,
+        );
+    }
+}
+
+// ------------------------------------------------------------------ pinned witnesses
+
+struct Witness {
+    /// finding id
+    id: &'static str,
+    doc: &'static str,
+    vars: &'static str,
+    subscription: bool,
+}
+
+/// Fixed invalid requests over S1, one per listed defect class. Signature:
+/// `<finding id>|<document> <variables> -> <exact observation>`.
+const WITNESSES: &[Witness] = &[
+    Witness { id: "C09-variable-position-never-checked", doc: "query($v: ID) { echoInt(v: 1) echoOpt(v: $v) }", vars: r#"{"v": 3}"#, subscription: false },
+    Witness { id: "C09-variable-position-never-checked", doc: "query($v: Int) { echoInt(v: $v) }", vars: r#"{"v": 3}"#, subscription: false },
+    Witness { id: "C09-variable-position-never-checked", doc: "query($v: Int!) { echoList(v: [1]) echoListOpt(v: $v) }", vars: r#"{"v": 3}"#, subscription: false },
+    Witness { id: "C09-conflicting-fields-behind-type-condition", doc: "{ a: echoInt(v: 1) ... on Query { a: echoOpt(v: 2) } }", vars: "{}", subscription: false },
+    Witness { id: "C09-conflicting-fields-behind-type-condition", doc: "{ a: echoInt(v: 1) ...F } fragment F on Query { a: echoOpt(v: 2) }", vars: "{}", subscription: false },
+    Witness { id: "C09-conflicting-fields-below-merged-parents", doc: "{ dog(i: 1) { x: name } dog(i: 1) { x: nick } }", vars: "{}", subscription: false },
+    Witness { id: "C09-string-literal-accepted-for-enum", doc: "{ echoEnum(v: \"RED\") }", vars: "{}", subscription: false },
+    Witness { id: "C09-non-object-literal-accepted-for-input-object", doc: "{ echoInt(v: 1) echoFilter(f: 7) }", vars: "{}", subscription: false },
+    Witness { id: "C09-argument-with-unsupplied-variable-not-checked", doc: "query($n: String) { echoInt(v: 1) echoFilter(f: {name: $n, range: {max: \"x\"}}) }", vars: "{}", subscription: false },
+    Witness { id: "C09-no-variable-coercion-step", doc: "query($v: Int!) { echoOpt(v: 1) echoInt(v: $v) }", vars: "{}", subscription: false },
+    Witness { id: "C09-duplicate-input-field-accepted", doc: "{ echoFilter(f: {name: \"a\", name: \"b\"}) }", vars: "{}", subscription: false },
+    Witness { id: "C09-typename-field-not-validated", doc: "{ echoInt(v: 1) __typename { __typename } }", vars: "{}", subscription: false },
+    Witness { id: "C09-typename-field-not-validated", doc: "{ echoInt(v: 1) __typename(zzNoSuchArg: 1) }", vars: "{}", subscription: false },
+    Witness { id: "C09-typename-field-not-validated", doc: "{ echoInt(v: 1) __typename @zzNoSuchDirective }", vars: "{}", subscription: false },
+    Witness { id: "C09-subscription-with-several-root-fields", doc: "subscription { ticks(n: 1) { n } zzSecond: ticks(n: 1) { n } }", vars: "{}", subscription: true },
+    Witness { id: "C09-subscription-with-several-root-fields", doc: "subscription { ticks(n: 1) { n } ...F } fragment F on Subscription { zzSecond: ticks(n: 1) { n } }", vars: "{}", subscription: true },
+];
+
+fn run_witnesses(run: &Run) {
+    let schema = static_schema();
+    let ts = s1::model();
+    let x = Exec { schema: &schema, ts: &ts, world_seed: 7, faults: vec![] };
+    let mut by_id: BTreeMap<&str, Vec<String>> = BTreeMap::new();
+    let mut clean: BTreeMap<&str, bool> = BTreeMap::new();
+    for w in WITNESSES {
+        let vars: J = serde_json::from_str(w.vars).unwrap_or(json!({}));
+        let obs = match execute(&x, w.doc, &vars, None, w.subscription) {
+            Ok(o) => o,
+            Err(p) => {
+                run.violation(&format!("{}|{} panicked: {p}", w.id, w.doc), &format!("pinned witness panicked: {} : {p}", w.doc), json!({"witness": w.id, "document": w.doc}));
+                continue;
+            }
+        };
+        run.eval();
+        run.count("witness_requests", 1);
+        let verdict = match judge_invalid(&obs) {
+            None => "rejected with a located error".to_string(),
+            Some(("accepted", _)) => format!(
+                "accepted: resolvers started {:?}, streams opened {}, {} error(s)",
+                obs.starts,
+                obs.streams.min(1),
+                obs.errors.len()
+            ),
+            Some((tag, _)) => format!("{tag}: {} error(s) {:?}", obs.errors.len(), obs.errors.iter().map(|e| &e.0).collect::<Vec<_>>()),
+        };
+        *clean.entry(w.id).or_insert(true) &= judge_invalid(&obs).is_none();
+        by_id.entry(w.id).or_default().push(format!("{} {} -> {}", w.doc, w.vars, verdict));
+    }
+    for (id, lines) in by_id {
+        if clean[id] {
+            run.count(&format!("witness_{id}_now_clean"), 1);
+            run.note(&format!("pinned witness {id}: every request is now rejected with a located error"));
+        } else {
+            let observed = lines.join(" || ");
+            run.violation(&format!("{id}|{observed}"), &format!("pinned witness {id}: {observed}"), json!({"witness": id, "observed": lines}));
+        }
+    }
+}
+
+// ------------------------------------------------------------------ replay
+
+fn replay(run: &Run, path: &std::path::Path) {
+    let Ok(text) = std::fs::read_to_string(path) else {
+        run.inconclusive("replay file unreadable");
+        return;
+    };
+    let Ok(v) = serde_json::from_str::<J>(&text) else {
+        run.inconclusive("replay file is not JSON");
+        return;
+    };
+    let c = &v["case"];
+    if c.get("witness").is_some() {
+        run_witnesses(run);
+        return;
+    }
+    let flavour = c["flavour"].as_str().unwrap_or("static");
+    let (ts, schema) = if flavour == "static" {
+        (s1::model(), static_schema())
+    } else {
+        let ts = Arc::new(gen_type_system(&mut Rng::new(c["ts_seed"].as_u64().unwrap_or(0)), &TsOpts::default()));
+        match dynamic_schema(&ts) {
+            Ok(s) => (ts, s),
+            Err(e) => {
+                run.inconclusive(&format!("replay: dynamic schema does not build: {e}"));
+                return;
+            }
+        }
+    };
+    if ts.sdl() != c["schema_sdl"].as_str().unwrap_or("") {
+        run.inconclusive("replay: regenerated schema differs from the recorded one");
+        return;
+    }
+    let faults: Vec<(String, Fault)> =
+        c["faults"].as_array().map(|a| a.iter().filter_map(|p| p.as_str().map(|p| (p.to_string(), Fault::Err))).collect()).unwrap_or_default();
+    let x = Exec { schema: &schema, ts: &ts, world_seed: c["world_seed"].as_u64().unwrap_or(0), faults };
+    let doc = c["document"].as_str().unwrap_or("");
+    let obs = match execute(&x, doc, &c["variables"], c["operation_name"].as_str(), c["subscription"].as_bool().unwrap_or(false)) {
+        Ok(o) => o,
+        Err(p) => {
+            run.violation("C09-replay-panic", &format!("replayed request panicked: {p}"), c.clone());
+            return;
+        }
+    };
+    run.eval();
+    println!("REPLAY kind={} flavour={flavour} document={doc}", c["kind"].as_str().unwrap_or("?"));
+    println!("REPLAY observed: {}", obs.brief());
+    println!("REPLAY response: {}", obs.raw);
+    let problem = if c["kind"] == "valid" {
+        if obs.accepted() { None } else { Some("a valid document was rejected".to_string()) }
+    } else {
+        judge_invalid(&obs).map(|p| p.1)
+    };
+    match problem {
+        Some(p) => run.violation(v["signature"].as_str().unwrap_or("C09-replay"), &format!("replay reproduces: {p}"), c.clone()),
+        None => println!("REPLAY verdict: behaves as the property demands"),
+    }
+}
+
+// ------------------------------------------------------------------ main
+
 pub fn main() {
-    println!("INCONCLUSIVE property=C09 reason=check not built yet");
-    std::process::exit(2);
+    let mut run = Run::from_args(
+        "exploration",
+        "(an evaluation is one request executed by the real schema in Strict mode) valid-by-construction documents (G2: aliases, repeated keys, \
+         inline/named fragments on overlapping object/interface/union conditions, @skip/@include with literals and variables, variables with \
+         defaults, omitted, null and nested in lists and input objects; queries, mutations, S1 subscriptions) over the static schema S1 and over \
+         generated dynamic schemas, and for each of them single-edit mutants from the rule-targeted operators of c09/ops.rs (one operator = one \
+         guarded structural edit of the harness AST that certainly violates one named rule of spec Oct-2021 §5 or §6.1.2). Operators are chosen \
+         least-applied-first so every operator is exercised. Half of the bases also run one validity-preserving variant; a third runs with \
+         one failing resolver. Non-trivial = a mutant; distinct by hash of (operator, printed mutant, variables)",
+    );
+    run.assume("documents from harness/model gen_doc are valid (response-key table argument in gen_doc.rs; the same generator feeds C01/C02, whose reference executor would disagree otherwise)");
+    run.assume("each operator's guard makes the mutant certainly invalid; the argument is the comment on the operator in harness/exec/src/c09/ops.rs");
+    run.assume("accepted = the execute hook of a pass-through extension was reached, or a harness resolver logged Start, or a subscription stream was opened; nothing else in the harness schemas can run user code");
+    run.assume("not asserted: WHICH rule reports the rejection, the number of errors, messages; documents the spec calls invalid only through SameResponseShape on never-overlapping object types are not generated; oneOf rules (not in the Oct-2021 edition) and Upload placement (documented restriction) are not generated");
+    if let Some(p) = run.replay.clone() {
+        replay(&run, &p);
+        run.finish();
+    }
+    let all = operators();
+    let enabled: Vec<bool> = all.iter().map(|o| run.feature(&format!("op_{}", o.name))).collect();
+    let bases = run.scale(40_000, 1_500_000);
+    let deadline_s = run.scale(300, 3_000) as f64;
+    let per_base = 2usize;
+    run.set_floors(run.scale(50_000, 1_500_000), run.scale(25_000, 700_000));
+    for c in ["valid_accepted", "mutants_rejected", "rejections_with_location", "validation_hook_ok", "rejected_by_validation_hook", "rejected_before_validation_hook", "errors_with_resolver_cause"] {
+        run.require_counter(c);
+    }
+    let stats = Stats {
+        tried: all.iter().map(|_| AtomicU64::new(0)).collect(),
+        applied: all.iter().map(|_| AtomicU64::new(0)).collect(),
+        rejected: all.iter().map(|_| AtomicU64::new(0)).collect(),
+    };
+    let shards = n_shards(&run);
+    let run = &run;
+    let all = &all;
+    let enabled = &enabled;
+    let stats = &stats;
+    run_witnesses(run);
+    std::thread::scope(|sc| {
+        for shard in 0..shards {
+            sc.spawn(move || {
+                let mut r = shard_rng(run, 9, shard);
+                let s1ts = s1::model();
+                let s1schema = static_schema();
+                let mut dynamic: Option<(u64, Arc<TypeSystem>, AnySchema)> = None;
+                let mut local_applied = vec![0u64; all.len()];
+                let variants = valid_variants();
+                let mut local_variants = vec![0u64; variants.len()];
+                let mut sampled = 0usize;
+                let mut i = shard;
+                let mut n_case = 0u64;
+                while i < bases {
+                    if n_case % 64 == 0 && run.elapsed_s() > deadline_s {
+                        if !WATCHDOG.swap(true, Ordering::Relaxed) {
+                            run.inconclusive(&format!("watchdog: workload not finished after {deadline_s} s"));
+                        }
+                        break;
+                    }
+                    i += shards;
+                    n_case += 1;
+                    let use_static = r.bool();
+                    if !use_static && (dynamic.is_none() || r.chance(1, 12)) {
+                        let ts_seed = r.next_u64();
+                        let ts = Arc::new(gen_type_system(&mut Rng::new(ts_seed), &ts_opts(run)));
+                        match dynamic_schema(&ts) {
+                            Ok(s) => {
+                                run.count("dynamic_schemas_built", 1);
+                                dynamic = Some((ts_seed, ts, s));
+                            }
+                            Err(_) => run.count("dynamic_schema_build_failed", 1),
+                        }
+                    }
+                    let (flavour, ts_seed, ts, schema) = match (use_static, &dynamic) {
+                        (false, Some((seed, ts, s))) => ("dynamic", *seed, ts.clone(), s.clone()),
+                        _ => ("static", 0, s1ts.clone(), s1schema.clone()),
+                    };
+                    let mut o = doc_opts(run);
+                    o.max_depth = 3;
+                    o.kind = if flavour == "static" && r.chance(1, 10) {
+                        OpKind::Subscription
+                    } else if ts.mutation.is_some() && r.chance(1, 8) {
+                        OpKind::Mutation
+                    } else {
+                        OpKind::Query
+                    };
+                    let gd = gen_doc(&ts, &mut r, &o);
+                    let fault_pick = if r.chance(1, 3) { Some(r.next_u64()) } else { None };
+                    let b = Base { flavour, ts_seed, ts: ts.clone(), gd, world_seed: r.next_u64(), pretty: r.bool(), fault_pick };
+                    let x = Exec { schema: &schema, ts: &ts, world_seed: b.world_seed, faults: vec![] };
+                    for f in &b.gd.features {
+                        run.seen("base_features", f);
+                    }
+                    if !check_valid(run, &x, &b) {
+                        continue;
+                    }
+                    let Some(mo) = main_op(&b.gd) else { continue };
+                    let sub = b.subscription();
+                    let sites = collect(&ts, &b.gd.doc);
+                    // a validity-preserving variant of the base must be accepted too
+                    if !sub && r.chance(1, 2) {
+                        let mut order: Vec<usize> = (0..variants.len()).collect();
+                        order.rotate_left((n_case as usize) % variants.len());
+                        order.sort_by_key(|&k| local_variants[k]);
+                        for k in order {
+                            let cx = Cx { ts: &ts, gd: &b.gd, sites: &sites, main_op: mo, salt: r.next_u64() };
+                            let Some(m) = (variants[k].f)(&cx, &mut r) else { continue };
+                            local_variants[k] += 1;
+                            let vb = Base { flavour, ts_seed, ts: ts.clone(), gd: m.gd, world_seed: b.world_seed, pretty: b.pretty, fault_pick: None };
+                            run.count(&format!("{}_applied", variants[k].name), 1);
+                            run.seen("valid_variants_applied", variants[k].name);
+                            if check_valid(run, &x, &vb) {
+                                run.count(&format!("{}_accepted", variants[k].name), 1);
+                            }
+                            break;
+                        }
+                    }
+                    // least-applied-first, ties broken by a rotating offset
+                    let mut order: Vec<usize> = (0..all.len()).filter(|&k| enabled[k] && all[k].subscription == sub).collect();
+                    let rot = (n_case as usize) % order.len().max(1);
+                    order.rotate_left(rot);
+                    order.sort_by_key(|&k| local_applied[k]);
+                    let mut made = 0;
+                    for k in order {
+                        if made >= per_base {
+                            break;
+                        }
+                        let cx = Cx { ts: &ts, gd: &b.gd, sites: &sites, main_op: mo, salt: r.next_u64() };
+                        stats.tried[k].fetch_add(1, Ordering::Relaxed);
+                        let Some(m) = (all[k].f)(&cx, &mut r) else { continue };
+                        made += 1;
+                        local_applied[k] += 1;
+                        let sample = shard == 0 && sampled < 5 && local_applied[k] == 1 && n_case > 3 * (sampled as u64);
+                        if sample {
+                            sampled += 1;
+                        }
+                        check_mutant(run, &x, &b, &all[k], k, &m, stats, sample);
+                    }
+                }
+            });
+        }
+    });
+    // per-operator table and floors
+    let floor = run.scale(150, 2_000);
+    let mut table = serde_json::Map::new();
+    let mut never = vec![];
+    for (k, o) in all.iter().enumerate() {
+        let (t, a, rj) = (stats.tried[k].load(Ordering::Relaxed), stats.applied[k].load(Ordering::Relaxed), stats.rejected[k].load(Ordering::Relaxed));
+        table.insert(o.name.to_string(), json!({"rule": o.rule, "enabled": enabled[k], "tried": t, "applied": a, "rejected": rj}));
+        if enabled[k] {
+            if a == 0 {
+                never.push(o.name);
+            }
+            if a < floor {
+                run.inconclusive(&format!("operator {} was applied {a} time(s) in {t} attempt(s) (floor {floor})", o.name));
+            }
+        }
+    }
+    run.extra("operators", J::Object(table));
+    run.extra("operators_enabled_but_never_applicable", json!(never));
+    run.extra("operator_floor", json!(floor));
+    run.extra("requests_executed", json!(EXECUTED.load(Ordering::Relaxed)));
+    let first = FIRST_PROBLEM_AT.load(Ordering::Relaxed);
+    if first > 0 {
+        run.extra("first_problem_after_requests", json!(first));
+        println!("NOTE: first problem of the generated workload after {first} executed request(s)");
+    }
+    run.extra("operators_total", json!(all.len()));
+    run.extra("operators_enabled", json!(enabled.iter().filter(|e| **e).count()));
+    run.finish_code_exit();
 }
